@@ -1,5 +1,6 @@
 import Vflow.Proofs.JsonTree
 import Vflow.Props.C08
+import Vflow.Proofs.SflowJsonTree
 /-!
 # C05 — every published message is valid JSON that faithfully carries the decode
 
@@ -23,8 +24,14 @@ of `Vflow.Spec.JsonProgs` up to merging of adjacent literal writes.
 
 **Assumption** (`FloatOk`, stated per field): `strconv.FormatFloat(f,'E',-1,bits)` is not modelled; its text
 is an input, assumed to be a JSON number for a finite bit pattern and a string body (`NaN`, `+Inf`,
-`-Inf`) otherwise.  sFlow messages are published through `encoding/json` (library) and are not
-covered here.
+`-Inf`) otherwise.
+
+**sFlow** (the fourth protocol) is published as `json.Marshal(datagram)` — `encoding/json`, library code.
+Its model is `Spec.render (sflowTree d)` (`Vflow.Model.SflowJson`): `sflow_tree_wf` / `sflow_json_valid` /
+`sflow_published_valid` prove that this rendering is valid JSON deriving exactly `sflowTree d`, for every
+datagram value.  That the rendering **equals what `encoding/json` emits** is established by the
+byte-for-byte correspondence (kinds `sflow`, `sflowf`, `dissect`; C07 / C18 / C01 / C05 checks), **not
+proved**.
 -/
 namespace Vflow.C05
 open Vflow Vflow.Spec Vflow.JsonTree Vflow.JsonLex
@@ -90,6 +97,100 @@ theorem v5_marshal_eq_render (a : Bytes) (m : V5.Msg) : V5.marshal (ipBytes a) m
 /-- **C05 (NetFlow v5, validity)**: unconditional (no float or string fields) -/
 theorem v5_marshal_valid (a : Bytes) (m : V5.Msg) : DVal (V5.marshal (ipBytes a) m) (v5Tree a m) :=
   C08.v5_marshal_valid a m
+
+/-! ## sFlow (published through `encoding/json`) -/
+
+section SflowSection
+open Vflow.Sflow Vflow.Sflow.Json Vflow.SflowJsonTree
+
+/-- **C05 (sFlow, well-formed tree)**: for every datagram value — any number of flow and counter samples, any
+combination of records, any field values, any octets in the sampled header's addresses, MACs and ICMP
+rest-of-header — every number leaf of `sflowTree d` is an RFC 8259 number, every string leaf and every
+key a string body.  **The tree is the faithfulness statement**: the datagram header fields by Go field
+name in declaration order, each the exact decimal text of the decoded value; `Samples` / `Counters` in
+decode order; `Records` as a map with sorted keys (`ExtRouter` < `ExtSwitch` < `RawHeader`; `EthInt` <
+`GenInt` < `Proc` < `TRInt` < `VGInt` < `Vlan`); the sampled packet as `L2` / `L3` / `L4` objects (`null`
+when absent) with MACs as `xx:xx:…` text, addresses as `net.IP.String` text, `[]byte` as base64;
+`IPAddress` / `NextHop` as `net.IP.MarshalText`. -/
+theorem sflow_tree_wf (d : Datagram) : WF (sflowTree d) := wf_sflowTree d
+
+/-- **C05 (sFlow, validity)**: the rendering of the sFlow message tree derives exactly that tree in the
+RFC 8259 grammar.  The model of the published text is this rendering; its equality with what
+`encoding/json` (library code) emits is established by the correspondence, not proved. -/
+theorem sflow_json_valid (d : Datagram) : DVal (render (sflowTree d)) (sflowTree d) :=
+  derives_render _ (sflow_tree_wf d)
+
+/-- **C05 (sFlow, what is published)**: whenever the model of `json.Marshal(datagram)` yields a text (it yields
+none — marshal error, nothing is published — exactly when a `net.IP` in the datagram has a length other
+than 0, 4 or 16), that text is valid JSON deriving `sflowTree d` -/
+theorem sflow_published_valid (d : Datagram) (bs : Bytes) (h : sflowJson? d = some bs) :
+    DVal bs (sflowTree d) := by
+  unfold sflowJson? at h
+  split at h
+  · injection h with h; rw [← h]; exact sflow_json_valid d
+  · simp at h
+
+/-- the sampled packet alone (what the `dissect` correspondence compares) -/
+theorem sflow_packet_valid (p : Packet.Pkt) : DVal (render (pktTree p)) (pktTree p) :=
+  derives_render _ (wf_pktTree p)
+
+/-- address strings of the sampled header are carried verbatim: for a non-empty address the `Src` / `Dst`
+string leaf is exactly `net.IP.String()` (the escaping `encoding/json` applies is the identity on it) -/
+theorem sflow_address_verbatim (b : Bytes) (h : b.length ≠ 0) : ipStringLeaf b = .str (ipBytes b) :=
+  ipStringLeaf_verbatim b h
+
+/-- an Ethernet / IPv4 / TCP sampled header -/
+def examplePkt : Packet.Pkt :=
+  { l2 := { srcMAC := [0, 17, 34, 51, 68, 85], dstMAC := [170, 187, 204, 221, 238, 255], vlan := 0, etherType := 2048 },
+    l3 := .v4 { version := 4, tos := 0, totalLen := 40, id := 1, flags := 2, fragOff := 0, ttl := 64, protocol := 6,
+                checksum := 0, src := [192, 0, 2, 1], dst := [198, 51, 100, 7] },
+    l4 := .tcp 1234 80 5 0 24 }
+
+def exampleFlowSample : FlowSample :=
+  { seqNo := 1, sourceID := 3, samplingRate := 512, samplePool := 1024, drops := 0, input := 1, output := 2,
+    recordsNo := 3,
+    recs := { raw := some examplePkt,
+              sw := some { srcVlan := 10, srcPriority := 0, dstVlan := 20, dstPriority := 0 },
+              rtr := some { nextHop := [0x20, 0x01, 0x0d, 0xb8, 0, 0, 0, 0, 0, 0, 0, 0, 0, 0, 0, 1],
+                            srcMask := 24, dstMask := 16 } } }
+
+def exampleCounterSample : CounterSample :=
+  { seqNo := 2, sourceIDType := 0, sourceIDIdx := 3, recordsNo := 1,
+    recs := { proc := some [1, 2, 3, 18446744073709551615, 0] } }
+
+/-- a datagram with one flow sample (extended router with IPv6 next hop, extended switch, sampled header)
+and one counter sample (processor record) -/
+def exampleDatagram : Datagram :=
+  { version := 5, ipVersion := 1, agentSubID := 0, seqNo := 7, sysUpTime := 1000, samplesNo := 2,
+    samples := [exampleFlowSample], counters := [exampleCounterSample], ip := [192, 0, 2, 9] }
+
+example : sflowJson? exampleDatagram = some (txt [
+    "{\"Version\":5,\"IPVersion\":1,\"AgentSubID\":0,\"SequenceNo\":7,",
+    "\"SysUpTime\":1000,\"SamplesNo\":2,\"Samples\":[{\"SequenceNo\":1,",
+    "\"SourceID\":3,\"SamplingRate\":512,\"SamplePool\":1024,\"Drops\":0,",
+    "\"Input\":1,\"Output\":2,\"RecordsNo\":3,\"Records\":{",
+    "\"ExtRouter\":{\"NextHop\":\"2001:db8::1\",\"SrcMask\":24,\"DstMask\":16},",
+    "\"ExtSwitch\":{\"SrcVlan\":10,\"SrcPriority\":0,\"DstVlan\":20,",
+    "\"DstPriority\":0},\"RawHeader\":{\"L2\":{\"SrcMAC\":\"00:11:22:33:44:55\",",
+    "\"DstMAC\":\"aa:bb:cc:dd:ee:ff\",\"Vlan\":0,\"EtherType\":2048},",
+    "\"L3\":{\"Version\":4,\"TOS\":0,\"TotalLen\":40,\"ID\":1,\"Flags\":2,",
+    "\"FragOff\":0,\"TTL\":64,\"Protocol\":6,\"Checksum\":0,",
+    "\"Src\":\"192.0.2.1\",\"Dst\":\"198.51.100.7\"},",
+    "\"L4\":{\"SrcPort\":1234,\"DstPort\":80,\"DataOffset\":5,\"Reserved\":0,",
+    "\"Flags\":24}}}}],\"Counters\":[{\"SequenceNo\":2,\"SourceIDType\":0,",
+    "\"SourceIDIdx\":3,\"RecordsNo\":1,\"Records\":{\"Proc\":{\"CPU5s\":1,",
+    "\"CPU1m\":2,\"CPU5m\":3,\"TotalMemory\":18446744073709551615,",
+    "\"FreeMemory\":0}}}],\"IPAddress\":\"192.0.2.9\",\"ColTime\":0}"]) := by decide +kernel
+
+/-- `[]byte` leaves are base64 (`AQID` = 01 02 03, padding for 1 and 2 octets); an absent layer is `null` -/
+example : render (pktTree ⟨{}, .none, .icmp 8 0 [1, 2, 3, 4]⟩) = txt [
+    "{\"L2\":{\"SrcMAC\":\"\",\"DstMAC\":\"\",\"Vlan\":0,\"EtherType\":0},",
+    "\"L3\":null,\"L4\":{\"Type\":8,\"Code\":0,\"RestHeader\":\"AQIDBA==\"}}"] := by decide +kernel
+
+/-- a 5-octet agent address cannot be marshalled: nothing is published -/
+example : sflowJson? { exampleDatagram with ip := [1, 2, 3, 4, 5] } = none := by decide +kernel
+
+end SflowSection
 
 /-! ## What the leaves carry (re-exported from `Vflow.Proofs.JsonLex`) -/
 
